@@ -63,6 +63,13 @@ def many_names(n):
     return 'function big() { %s }' % body
 
 
+def many_names_catch(n):
+    """as many_names, with a catch clause in the same scope: the catch parameter's name comes from a generator of its own"""
+    names = ['w%d' % i for i in range(n)]
+    body = 'var ' + ', '.join('%s = %d' % (x, i) for i, x in enumerate(names)) + '; try { risky(); } catch (problem) { report(problem, ' + ', '.join(names) + '); }'
+    return 'function big() { %s }' % body
+
+
 def short_among_many(n):
     """many frequently used locals plus single-letter ones used once (so they come last in the renaming order)"""
     names = ['y%02d' % i for i in range(n)]
@@ -321,7 +328,7 @@ def main(run, tier):
             configs.append(('indent+obfuscate globals=%s shadow=%s' % (og, sf), og,
                             lambda ob, og=og, sf=sf: unparsers.Unparser(rules=(rules.indent('  '),) + ((rules.obfuscate(
                                 obfuscate_globals=og, shadow_funcname=sf, reserved_keywords=kwd),) if ob else ()))))
-    progs = list(PROGRAMS) + [many_names(60), many_names(300), nested_many(250), short_among_many(60), short_among_many(120)]
+    progs = list(PROGRAMS) + [many_names(60), many_names(300), nested_many(250), short_among_many(60), short_among_many(120), many_names_catch(300)]
     if tier == 'thorough':
         progs += [many_names(3000), nested_many(1500)]
     n = 0
